@@ -149,7 +149,7 @@ func init() {
 			"user JavaScript that loops and caller-registered functions are outside the claim",
 			"a hang is a case that makes no progress for 45 s (normal cases take microseconds to milliseconds); memory blow-up beyond 6 GB is reported the same way",
 		},
-		BudgetQuick: 110, BudgetThorough: 1700, HangSeconds: 45,
+		BudgetQuick: 300, BudgetThorough: 1700, HangSeconds: 45,
 		Run:    c03Run,
 		Replay: c03Replay,
 	})
